@@ -18,12 +18,26 @@ out.append("")
 out.append("#### Table 9-B. Seeded changes (`/verif/seeded/<id>/`) and the checks that catch them (see §9.4)\n")
 metas = [json.load(open(os.path.join(d, "meta.json"))) for d in sorted(glob.glob(os.path.join(H, "seeded", "*"))) if os.path.exists(os.path.join(d, "meta.json"))]
 n = len(metas)
-late = sum(1 for m in metas if "initially" in str(m.get("detected_by", "")).lower() or "first version" in str(m.get("detected_by", "")).lower())
-pend = sum(1 for m in metas if "pending" in str(m.get("detected_by", "")).lower())
-other = sum(1 for m in metas if "misses it" in str(m.get("detected_by", "")).lower() and "initially" not in str(m.get("detected_by", "")).lower())
+def cls(m):
+    t = str(m.get("detected_by", "")).lower()
+    if "pending" in t:
+        return "pending"
+    if "outside the statement" in t:
+        return "outside"
+    if "initially" in t or "first version" in t or "missed at first" in t:
+        return "late"
+    if "misses it" in t or "neighbour" in t:
+        return "other"
+    return "direct"
+
+
+cnt = {}
+for m in metas:
+    cnt[cls(m)] = cnt.get(cls(m), 0) + 1
 out.append("%d seeded changes confirmed; %d were caught by the quick tier of their own check as it stood, %d only by the check of a neighbouring property "
-           "(named in the row), %d were missed at first and are caught after the strengthening described in the row, %d still pending.\n"
-           % (n, n - late - pend - other, other, late - pend if late >= pend else late, pend))
+           "(named in the row), %d were missed at first and are caught after the strengthening described in the row, %d turned out to lie outside "
+           "the statement they were aimed at (reported as DRIFT, no VIOLATION due), %d still pending.\n"
+           % (n, cnt.get("direct", 0), cnt.get("other", 0), cnt.get("late", 0), cnt.get("outside", 0), cnt.get("pending", 0)))
 out.append("| id | property | what it needs to manifest | detected by |")
 out.append("|---|---|---|---|")
 for d in sorted(glob.glob(os.path.join(H, "seeded", "*"))):
